@@ -4,6 +4,7 @@ From TV Require Import Base.Prelude Base.Utf8 Base.Winnow Gen.Consts Spec.Abnf S
 From TV Require Import Model.Trivia Model.Strings Model.Datetime Model.Numbers Model.Tree Model.Parse Model.Document Model.Write Model.Encode.
 From TV Require Import Proofs.LexEquivBase Proofs.PrintBackBase Proofs.PrintBackEnc Proofs.PrintBackKey Proofs.PrintBackValue Proofs.PrintBackDoc
                        Proofs.PrintBackSort Proofs.PrintBackEnts Proofs.PrintBackHKey Proofs.PrintBackDVals Proofs.PrintBackDAll Proofs.PrintBackDKey Proofs.PrintBackIValue.
+From TV Require Import Spec.Norm Proofs.TilingNormScan Proofs.TilingNormStr Proofs.TilingCmt.
 Require Import Lia ZifyBool ZifyN ZifyNat.
 
 (* the source position of an item: the start of the header's table span; the start of the line's last key *)
@@ -31,6 +32,29 @@ Definition sitem_ok (s : bytes) (it : sitem) : Prop :=
       /\ d_prefix (k_leaf k') = Some (raw_with_span (pos i0, pos j0)) /\ (pos i0 = pos j0 -> lstart s (N.to_nat (pos j0)))
       /\ Forall (hkey s) po /\ lkey s k'
       /\ (forall ks, pre_text s ks k' = pre_text s po k' -> vok s v = true -> dline s (ks ++ [k'], v) = txt)
+  end.
+
+(* the comments of an item: those of the text before its key path and of the text after it *)
+Definition pre_raw (d : decor) : raw := match d_prefix d with Some r => r | None => REmpty end.
+Definition suf_raw (d : decor) : raw := match d_suffix d with Some r => r | None => REmpty end.
+Definition line_lead (s : bytes) (k' : key) : bytes := decor_prefix (k_leaf (tkey s k')) (fst DEFAULT_KEY_DECOR).
+Definition line_rest (s : bytes) (k' : key) (v : value) : bytes :=
+  decor_suffix (k_leaf (tkey s k')) (snd DEFAULT_KEY_DECOR) ++ [x3d]
+  ++ encode_value (S (value_size (tvalue s v))) (tvalue s v) DEFAULT_VALUE_DECOR ++ [x0a].
+
+Definition sitem_cj (s : bytes) (it : sitem) : Prop :=
+  let '(x, txt) := it in
+  match x with
+  | PH st q a d =>
+    exists cl ct,
+      cj anyf (raw_encode (traw s (pre_raw d)) []) cl
+      /\ cj anyf (raw_encode (traw s (suf_raw d)) [] ++ [x0a]) ct /\ (forall r, qstop ((raw_encode (traw s (suf_raw d)) [] ++ [x0a]) ++ r))
+      /\ cj anyf txt (cl ++ ct)
+  | PL k' v =>
+    vok s v = true ->
+    exists cl ct,
+      cj anyf (line_lead s k') cl /\ cj anyf (line_rest s k' v) ct /\ (forall r, qstop (line_rest s k' v ++ r))
+      /\ cj anyf txt (cl ++ ct)
   end.
 
 Lemma ppos_line k v ja jb : k_repr k = Some (raw_with_span (pos ja, pos jb)) -> pos ja <> pos jb -> ppos (PL k v) = pos ja.
